@@ -117,7 +117,7 @@ int main(int argc, char **argv)
 		for (al = 0; al < 2; ++al) {
 			size_t L = lens[li];
 			uint8_t *buf = store + 16 + al;
-			size_t splits[8] = { 0, 1, 65535, 65536, L / 2, L - 65536, L - 1, L };
+			size_t splits[8] = { 0, 1, 65535 <= L ? 65535 : L, 65536 <= L ? 65536 : L / 3, L / 2, L >= 65536 ? L - 65536 : L / 4, L - 1, L };
 			uint16_t want, c;
 			if (!VF.thorough && L > 2000000) continue;
 			if (!vf_case("long buffer len=%zu align=%u whole and 8 split points", L, al)) continue;
